@@ -402,6 +402,106 @@ def job(arg):
     return rep
 
 
+LOOKALIKE_REFS = {"user_a": "acme.string", "user_b": "zip.bytes", "user_c": "arch.pickle", "user_d": "fast.pandas"}
+
+
+def _lookalike_codecs():
+    """User file codecs for UserA/UserB values whose protocol names end like those of the built-in codecs."""
+    from dds.structures import FileCodecProtocol, ProtocolRef, SupportedType
+
+    def mk(ref, tname, cls, prefix):
+        class C(FileCodecProtocol):
+            def ref(self):
+                return ProtocolRef(ref)
+
+            def handled_types(self):
+                return [SupportedType(tname)]
+
+            def serialize_into(self, blob, loc):
+                with open(str(loc), "wb") as f:
+                    f.write(prefix + repr(blob.x).encode("utf-8"))
+
+            def deserialize_from(self, loc):
+                with open(str(loc), "rb") as f:
+                    d = f.read()
+                assert d.startswith(prefix), d[:20]
+                return cls(eval(d[len(prefix):].decode("utf-8")))
+
+        return C()
+
+    return lambda ra, rb: [mk(ra, "checks.c17.UserA", UserA, b"LA:"), mk(rb, "checks.c17.UserB", UserB, b"LB:")]
+
+
+def _lookalike_proc(arg):
+    role, kind, root, refs, cache = arg
+    import dds
+    from dds.structures import DDSException
+
+    dds.accept_module("checks")
+    if kind == "local":
+        dds.set_store("local", internal_dir=os.path.join(root, "internal"), data_dir=os.path.join(root, "data"), cache_objects=cache)
+    else:
+        from vp.fakedbutils import FakeDbutils
+
+        _DBFS_ROOT[0] = root
+        dds.set_store("dbfs", internal_dir="dbfs:/internal", data_dir="dbfs:/data", dbutils=FakeDbutils(root), cache_objects=cache)
+    from dds import _api
+
+    reg = _api._store().codec_registry()
+    codecs = _lookalike_codecs()(*refs)
+    out = {}
+
+    def rd(label):
+        for t in ("user_a", "user_b"):
+            try:
+                v = dds.load("/c17l/%s" % t)
+                out[(label, t)] = ("ok", pickle.dumps(v))
+            except DDSException as e:
+                out[(label, t)] = ("dds", getattr(getattr(e, "error_code", None), "name", None))
+            except BaseException as e:
+                out[(label, t)] = ("exc", "%s: %s" % (type(e).__name__, str(e)[:120]))
+
+    if role == "writer":
+        for c in codecs:
+            reg.add_file_codec(c)
+        for t in ("user_a", "user_b"):
+            dds.keep("/c17l/%s" % t, produce, t)
+        rd("after-keep")
+    else:
+        rd("before-registration")
+        for c in reversed(codecs):
+            reg.add_file_codec(c)
+        rd("after-registration")
+    return out
+
+
+def lookalike_job(arg):
+    """Results written by user codecs whose protocol names end like a built-in one (acme.string, zip.bytes, ...): a process
+    that has not registered them gets an error for these paths, never a value decoded by another codec; once it registers
+    them (in another order) it reads what was written - also with the object cache on."""
+    kind, refs, cache = arg
+    rep = core.Report("C17")
+    rep.evaluations = 1
+    case = {"lookalike": True, "kind": kind, "refs": list(refs), "cache": cache}
+    with core.Scratch("vp_c17l_") as root:
+        w = core.fork_call(_lookalike_proc, ("writer", kind, root, refs, cache), timeout=300)
+        r = core.fork_call(_lookalike_proc, ("reader", kind, root, refs, cache), timeout=300)
+    if isinstance(w, core.JobFailed) or isinstance(r, core.JobFailed):
+        rep.inconclusive.append("look-alike protocol job: %r %r" % (w, r))
+        return rep
+    for (label, t), o in sorted(list(w.items()) + list(r.items())):
+        rep.count("reads_with_lookalike_protocol_names")
+        want = value(t)
+        if label == "before-registration":
+            if o[0] == "ok":
+                rep.violate("%s (cache=%r): /c17l/%s was written by a user codec named %r; a process that has not registered it read it back as %s instead of getting an error" % (kind, cache, t, refs[0 if t == "user_a" else 1], repr(pickle.loads(o[1]))[:80]), case,
+                            mechanism="decoded-by-another-codec")
+        elif o[0] != "ok" or not SM.values_equal(pickle.loads(o[1]), want):
+            rep.violate("%s (cache=%r): /c17l/%s (user codec %r) read %s gives %s" % (kind, cache, t, refs[0 if t == "user_a" else 1], label, repr(pickle.loads(o[1]))[:80] if o[0] == "ok" else o[1]), case, mechanism="decoded-by-another-codec")
+    rep.nontriv(("c17look", kind, refs, repr(cache)))
+    return rep
+
+
 def fork_job(arg):
     """Worker processes forked from a process whose DBFS store has already transferred blobs read different paths at the
     same time (their downloads are lined up by a barrier in the fake dbutils): each gets its own value."""
@@ -490,7 +590,8 @@ def run(tier, seed):
                 rng.shuffle(tags)
                 jobs.append((kind, sc, tags))
     fjobs = [(None, ["str_ascii", "str_nonascii"]), (None, ["str_ascii", "nested", "bytes_plain"]), (None, ["frame0", "obj"])]
-    results = core.fork_map(lambda j: fork_job(j[1]) if j[0] == "f" else job(j[1]), [("j", j) for j in jobs] + [("f", j) for j in fjobs], timeout=900)
+    ljobs = [(kind, refs, cache) for kind in ("local", "dbfs") for refs in (("acme.string", "zip.bytes"), ("arch.pickle", "fast.pandas"), ("my.codec.string", "bytes")) for cache in (None, 2)]
+    results = core.fork_map(lambda j: {"f": fork_job, "j": job, "l": lookalike_job}[j[0]](j[1]), [("j", j) for j in jobs] + [("f", j) for j in fjobs] + [("l", j) for j in ljobs], timeout=900)
     for r in results[len(jobs):]:
         if isinstance(r, core.JobFailed):
             rep.inconclusive.append("fork job: %r" % (r,))
@@ -512,6 +613,9 @@ def replay(payload):
     c = payload["case"]
     if c.get("fork"):
         rep.merge(fork_job((c["cache"], c["tags"])))
+        return rep
+    if c.get("lookalike"):
+        rep.merge(lookalike_job((c["kind"], tuple(c["refs"]), c["cache"])))
         return rep
     rep.merge(job((c["kind"], c["scenario"], c["tags"])))
     return rep
